@@ -11,7 +11,7 @@ Arguments ROk {A}.
    bytes — a BufferReader, or a WireReader over any segmentation — ReadData returns exactly the name, MetaInfo, content,
    SignatureInfo and signature value that went in, and the covered bytes it reports are those handed to the signer.
    Hypotheses: component/key-name sizes below 2^63 and types below 2^64 (name_ok, signer_ok), ContentType < 2^64 and
-   FreshnessPeriod a whole non-negative number of milliseconds (meta_wf), total size within a Go int (data_fits). *)
+   FreshnessPeriod a whole number of milliseconds (meta_wf), total size within a Go int (data_fits). *)
 Theorem data_roundtrip : forall sign nm cfg content sg si est e,
   data_siginfo sg = Ok (si, est) -> name_ok nm -> meta_wf (meta_of cfg) -> signer_ok sg -> data_fits nm cfg content si est ->
   make_data sign nm cfg content sg = Ok e ->
@@ -40,9 +40,9 @@ Print Assumptions segmentation_irrelevant_data.
    joined bytes, ReadInterest returns exactly the final name, fields, parameters, SignatureInfo and signature value; with
    parameters the final name ends in the SHA-256 of the parameters element and everything after it (sha256 is an arbitrary
    32-byte-valued function); for a signed Interest the covered bytes reported by the parser are those handed to the signer.
-   Additional hypotheses: no ParametersSha256Digest component elsewhere in the name when there are no parameters (such an
-   Interest is rejected on decode), forwarding-hint names well formed, lifetime a whole non-negative number of milliseconds,
-   signature time non-negative and within int64 nanoseconds. *)
+   Additional hypotheses: forwarding-hint names well formed (always true of Go values), lifetime and signature time a whole
+   number of milliseconds within int64 nanoseconds.  (That a name without parameters carries no ParametersSha256Digest
+   component is no longer a hypothesis: MakeInterest refuses such a name, commit 4e73136.) *)
 Theorem interest_roundtrip : forall (sha256 : bytes -> bytes), (forall x, length (sha256 x) = 32%nat) ->
   forall sign nm cfg app sg si est e,
   let need := match app with Some _ => true | None => false end in
@@ -59,6 +59,13 @@ Theorem interest_roundtrip : forall (sha256 : bytes -> bytes), (forall x, length
                     (0 < est -> concat cov = concat (e_cov e)).
 Proof. exact interest_roundtrip_thm. Qed.
 Print Assumptions interest_roundtrip.
+
+(* Domain of FreshnessPeriod / InterestLifetime / SignatureTime in the two theorems above: every whole number of
+   milliseconds of either sign within int64 nanoseconds (0, 4000, 2^32, 9223372036854 ms, negative ones).  Nonce and
+   HopLimit carry no hypothesis (the observation is the value mod 2^32 / mod 256). *)
+Theorem durations_whole_ms_in_domain : forall ms : Z, (-9223372036854 <= ms <= 9223372036854)%Z -> dur_wf (ms * 1000000).
+Proof. exact dur_wf_whole_ms. Qed.
+Print Assumptions durations_whole_ms_in_domain.
 
 (* Every packet built through the API is a well-formed NDN TLV whose every length field is exact: the independent
    structural walker (Model.walk_packet: uses tl_dec only, recurses into Name, MetaInfo, FinalBlockId, SignatureInfo,
